@@ -58,9 +58,47 @@ theorem fit_ok_satisfies_limits (fmt : Format) (t t' : Table) (h : fitToPdb fmt 
 
 example : canWritePdb .cif Fit.exT = false ∧ fitToPdb .cif Fit.exT = .ok Fit.exT' := by decide
 
-/-- both branches, mmCIF-derived table: whatever is returned passes the fit test -/
-theorem fit_ok_fits (t t' : Table) (h : fitToPdb .cif t = .ok t') : t'.all rowFits = true :=
+/-- both branches, mmCIF-derived table: whatever is returned passes the fit test (holds under either behaviour
+of the PDB branch of `can_write_pdb`) -/
+theorem fit_ok_fits_cif (t t' : Table) (h : fitToPdb .cif t = .ok t') : t'.all rowFits = true :=
   Fit.fit_ok_rowFits t t' h
+
+/-- bridge (read off `can_write_pdb` on every run): PDB-derived tables are *tested* against the three limits
+(columns `serial`, `chainID`, `resSeq`), not assumed to fit.  Up to the fix the branch was `return True`; then this
+`decide` fails (= broken obligation) and the correspondence run produces the failing input (`unifier.main` writing
+the identifiers of a mmCIF file into a PDB-derived table). -/
+theorem pdb_tables_are_tested :
+    ParserV2.pdbAssumedToFit = false ∧ ParserV2.canWritePdbMaxSerial = 99999 ∧
+    ParserV2.canWritePdbMaxChainLen = 1 ∧ ParserV2.canWritePdbMaxResSeq = 9999 := by decide
+
+/-- **every format, both branches**: whatever `fit_to_pdb` returns satisfies the three limits of the statement.
+(Checks only while `can_write_pdb` tests PDB-derived tables.) -/
+theorem fit_ok_fits (fmt : Format) (t t' : Table) (h : fitToPdb fmt t = .ok t') :
+    ∀ a ∈ t', a.serial ≤ 99999 ∧ a.chain.length ≤ 1 ∧ a.resSeq ≤ 9999 :=
+  Fit.fit_ok_limits pdb_tables_are_tested.1 fmt t t' h
+
+/-- the full statement ("returns a table that satisfies the limits", any format) … -/
+def fit_ok_fits_full : Prop :=
+  ∀ (fmt : Format) (t t' : Table), fitToPdb fmt t = .ok t' →
+    ∀ a ∈ t', a.serial ≤ 99999 ∧ a.chain.length ≤ 1 ∧ a.resSeq ≤ 9999
+
+/-- … is FALSE of the legacy behaviour (`pdbAssumedToFit = true`): the PDB-derived table `Fit.exEdited` (chain `AA`,
+an edit of identifiers as `unifier.main` makes it) is returned unchanged -/
+theorem not_fit_ok_fits_full_of_assumed (hb : ParserV2.pdbAssumedToFit = true) : ¬ fit_ok_fits_full := fun hf => by
+  have h := hf .pdb Fit.exEdited Fit.exEdited (Fit.fit_pdb_assumed hb _) (Fit.exRow 1 "AA".toList 1 []) (by decide)
+  exact absurd h.2.1 (by decide)
+
+/-- … and holds of the present one; the part that holds under either behaviour is `fit_ok_fits_cif` -/
+theorem fit_ok_fits_full_of_tested : fit_ok_fits_full := fit_ok_fits
+
+/-- the same edited table under the present behaviour: renamed to chain `A` -/
+theorem edited_pdb_table_is_renamed :
+    fitToPdb .pdb Fit.exEdited = .ok [Fit.exRow 1 ['A'] 1 [], Fit.exRow 2 ['A'] 1 []] :=
+  Fit.fit_pdb_edited pdb_tables_are_tested.1
+
+example : canWritePdb .pdb Fit.exEdited = false ∧ satisfiesLimits Fit.exEdited = false := by
+  refine ⟨?_, by decide⟩
+  simp only [canWritePdb, pdb_tables_are_tested.1]; decide
 
 /-! ## atoms keep their order, names, coordinates and all other fields -/
 
